@@ -194,6 +194,14 @@ def run_case(case):
                                    tables=[{'name': r['name'], 'fields': r['fields'], 'rows': [], 'kind': 'load'}
                                            for r in (sh[-1] if sh else dsl.source_shape(tables))])
         specs = s1 + s2
+        if rng.random() < 0.6:
+            # nested cell values edited in place after a row-retaining step
+            for t in tables:
+                if 'arr' not in [f[0] for f in t['fields']]:
+                    t['fields'].append(['arr', 'array'])
+                for r in t['rows']:
+                    r['arr'] = [1, ['x']]
+            specs = s1 + [{'op': 'user', 'fn': 'u_arr_append', 'form': 'function'}] + s2
     else:
         tables, specs, _ = dsl.gen_program(rng)
     alien = None
